@@ -169,6 +169,21 @@ func (g *harnessGen) symExpr(t *TRef, d string) string {
 		if rt.Kind == "set" && g.isScalar(rt.Elem) {
 			distinct = "for i := range r { for j := 0; j < i; j++ { zzL.Assume(r[i] != r[j]) } }; "
 		}
+		if rt.Kind == "set" {
+			// a set of structs is a valid value only when its elements differ: make them differ in
+			// their first non-optional scalar member (a sub-domain of the valid values)
+			if edf, ert := g.p.resolve(g.f, rt.Elem); ert.Kind == "struct" {
+				if st := edf.structByName(ert.Name); st != nil {
+					for _, f := range st.Fields {
+						_, ft := g.p.resolve(edf, f.Type)
+						if f.Req != "optional" && (ft.Kind == "i32" || ft.Kind == "i64" || ft.Kind == "i16" || ft.Kind == "byte") {
+							distinct = fmt.Sprintf("for i := range r { for j := 0; j < i; j++ { zzL.Assume(r[i].%s != r[j].%s) } }; ", goName(f.Name), goName(f.Name))
+							break
+						}
+					}
+				}
+			}
+		}
 		return fmt.Sprintf("func() []%s { r := make([]%s, zzLen); for i := range r { r[i] = %s }; %sreturn r }()", et, et, g.symExpr(rt.Elem, d), distinct)
 	case "map":
 		kt, vt := g.goType(rt.Key), g.goType(rt.Elem)
